@@ -7,6 +7,8 @@ mod gen;
 mod decode;
 mod drv_real;
 mod drv_realobs;
+mod gen_ticket;
+mod drv_hash;
 
 fn arg(args : &Vec<String>, key : &str, default : &str) -> String
 {
@@ -32,6 +34,12 @@ fn main()
         "realfs" | "serve" =>
         {
             let recs = if cmd == "realfs" { drv_real::real_clean_build(&bin, &base, n, seed) } else { drv_real::real_serve(&bin, &base, n, seed) };
+            gen::write_lines(&arg(&args, "--out", "records.ndjson"), &recs);
+            println!("{}", serde_json::json!({"records" : recs.len()}));
+        },
+        "hash" =>
+        {
+            let recs = drv_hash::hash_cases(&bin, &base, arg(&args, "--thorough", "0") == "1", seed);
             gen::write_lines(&arg(&args, "--out", "records.ndjson"), &recs);
             println!("{}", serde_json::json!({"records" : recs.len()}));
         },
